@@ -22,6 +22,14 @@ CHECKS = {
          "All pairs of a ~270-value lattice x {checked_add, checked_sub, +, -, cmp, Sum} and x every i32-lattice multiplier/divisor; every returned value is observed through all accessors, neg, abs, to_std and Display (parsed back by an independent reader); the values reached are used again as operands (depth 2), so non-lattice values are explored too. The range invariant is asserted on every value ever returned.",
          "Trusted: i128 arithmetic. Float accessors are not judged.",
          "DESIGN.md §4 C06"),
+ 'C07': ("exhaustive sweep of all 86,400 seconds of the day x fraction classes (plain and leap) x the duration alphabet, with second steps from the results (depth 2), plus the complete constructor cube, all against an extended-time-line reference model of the documented leap-second rules",
+         "Every second of the day is a state; from each, with 11 (thorough: 60+) nanosecond fields incl. leap representations, every duration of the alphabet is added and subtracted (overflowing_*, operators) and compared with the reference (time and day carry); short steps are followed by a second step (leave the leap second and return); all replacement arguments and offsets are applied; differences over all pairs of a time lattice and every second against it, antisymmetry; NaiveDateTime with leap operands carries into the date.",
+         "Trusted: RefLeapTime, whose reading of the documentation is pinned by the 23 literal examples of the NaiveTime docs asserted at start-up.",
+         "DESIGN.md §4 C07"),
+ 'C08': ("state-space sweep of dates (thorough: all 191,491,529; quick: ~2.8 million covering two full 400-year cycles, both range ends and every 97th year) x month steps x replacement arguments x week starts, and complete products for n-th weekday / with_year / years_since, against RefCal",
+         "Each swept date is stepped by the month counts both ways, every with_* is applied with the in-domain argument ranges plus alias arguments, the 7 week starts are queried; from_weekday_of_month_opt is enumerated for all months 0..=13 x 7 weekdays x all 256 n per alphabet year; years_since on all pairs of boundary dates.",
+         "Trusted: RefCal. u32 arguments beyond the in-domain ranges are represented by alias classes.",
+         "DESIGN.md §4 C08"),
  'C19': ("exhaustive enumeration of the whole quantified domain: 7 weekdays, 12 months, 128 sets x 7 days, 128^2 set pairs, and every next/next_back history of the set iterator from all 896 initial states against a reference deque; conversions on integer lattices with alias classes; text parsing on all case variants, 1-edit mutants and short strings",
          "Everything the statement quantifies over is finite and is enumerated completely (exhaustive: true), except the integer and string arguments of the conversions, which are covered by lattices/alias classes and by all strings up to a length bound plus all 1-edit mutants of every name.",
          "Trusted: a [bool;7]/bitmask reference set and name tables written from the statement.",
